@@ -212,7 +212,9 @@ from checks import c15_clients  # noqa: E402,F401  (adds the client configuratio
 
 
 def configs(tier):
-    return [(n,) for n, (t, f) in REGISTRY.items() if t == "quick" or tier == "thorough"]
+    import os
+    manual = bool(os.environ.get("VERIF_C15_MANUAL"))
+    return [(n,) for n, (t, f) in REGISTRY.items() if t == "quick" or (tier == "thorough" and t == "thorough") or (manual and t == "manual")]
 
 
 def tuple_deep(x):
